@@ -238,7 +238,11 @@ def find_fn(src: str, m: str, ctx, name: str, nth: int = 0):
         elif c in ')]':
             depth -= 1
         elif c == '{' and depth == 0:
-            break
+            # `{ N / 8 }` in a const-generic argument position is not the body
+            if m[:i].rstrip().endswith(('<', ',')):
+                i = match_brace(m, i)
+            else:
+                break
         elif c == ';' and depth == 0:
             raise ExtractError(f'fn `{name}` has no body')
         i += 1
@@ -618,7 +622,10 @@ def _emit_fn(g, meta, tmpl, rel, src, m, ctx, name, kv, subs):
         elif c in ')]':
             depth -= 1
         elif c == '{' and depth == 0:
-            break
+            if mm[:k].rstrip().endswith(('<', ',')):
+                k = match_brace(mm, k)
+            else:
+                break
         k += 1
     sig = text[:k]
     body = text[k + 1:-1]
